@@ -1,8 +1,37 @@
 """C01 — legalization returns a legal placement or fails loudly."""
 VARIANT = "san"
 RULE = "see stats"
-PARTIAL = []
-ASSUMPTIONS = []
-LEVEL_TEXT = "tbd"
-LEVEL_NOTE = "tbd"
-TECHNIQUE = "tbd"
+TIMEOUT = {"quick": 1500, "thorough": 6 * 3600, "search": 3600}
+PARTIAL = [
+    "legality of the returned placement (clause 1) is proved only for the Abacus pass relative to the row segments it is "
+    "given (legalize_legal_partial: listed cells inside their segment, pairwise ordered and non-overlapping, for every input "
+    "on which AbacusLegalizer returns); NOT proved: that every placed cell is listed in exactly one segment with that "
+    "segment's y, the Tetris pass for multi-row cells, disjointness of the segments handed to Abacus from placed macros "
+    "and obstructions, and the import/export index plumbing (legalize_legal_full_statement). Supported instead by the "
+    "whole-pipeline correspondence stream and the independent legality oracle on every normal return of the real code.",
+    "never fails when success is trivial (clause 3) is not proved (legalize_trivial_success_full_statement); only the local "
+    "step 'evaluatePlacement accepts every segment with enough remaining space for an unrestricted cell' is "
+    "(legalize_trivial_success_partial). Supported by the harness: directed trivial-success instances at and just under the "
+    "bound must not throw (measured count class_trivial_success).",
+    "the ordering key is binary32 in the C++; the model computes it with an exact model of IEEE round-to-nearest-even over "
+    "Rat (f32), tied by the `order` sub-stream; the theorems of C01 hold for every rounding function.",
+]
+ASSUMPTIONS = [
+    "C++ int/long long arithmetic modelled as unbounded Int (coordinates |v| < 2^20 in the streams; overflow is C07's obligation)",
+    "boost::polygon row/obstacle subtraction behaves as the 1-D interval model Freespace (tied by C15)",
+    "binary32 arithmetic of computeCellOrder = f32 over Rat: SSE float evaluation, no FMA contraction, finite non-NaN parameters",
+    "std::stable_sort on (key,index) pairs and on rows by (minY,minX) modelled as stable insertion sorts; std::lower_bound on the sorted rows = first index with minY >= y",
+    "ColoquinteParameters::check: only the legalization block is modelled; global/detailed blocks are drawn valid",
+    "model follows /repo after fixes c01-tetris-turned, c01-abacus-no-rows, c11-abacus-cost-narrowing; the constant "
+    "Legalize.tetrisPerSegmentOrientation selects the Tetris orientation rule before/after fixes/c04-tetris-row-orientation (both variants checked against the real code)",
+]
+LEVEL_TEXT = ("Lean 4 theorems over an executable model of the whole legalization pipeline (fromIspdCircuit, computeCellOrder with "
+              "an exact binary32 key, Tetris, remainingRows, Abacus with RowLegalizer, checkAllPlaced, exportPlacement): "
+              "error-or-all-placed and the frame of exportPlacement for all inputs; legality of the Abacus pass relative to its "
+              "segments for all inputs (partial, see partial_clauses); pre-fix witnesses by kernel evaluation. The model is tied to "
+              "Circuit::legalize by a differential stream over generated circuits (all option mixes, directed full/overfull/"
+              "trivial/macro-cover instances, parameters over the whole accepted range) and every normal return of the real "
+              "code is checked by an independent legality oracle")
+LEVEL_NOTE = ("Trusted: Lean kernel (axioms propext/Classical.choice/Quot.sound only), the hand-written model's tie to the code "
+              "(differential, bounded by the generator), unbounded Int for C++ int, f32 model of binary32, Freespace model of boost.")
+TECHNIQUE = "Lean 4 proof + whole-pipeline model/implementation correspondence stream + independent legality oracle"
